@@ -48,7 +48,10 @@ def generate(rng, tier, idx):
         else:
             op = rng.choice(['wp', 'wp', 'wpr', 'wpr', 'ep', 'ep', 'pp1', 'pp2'] if rng.random() < 0.4 else ['wp', 'wpr', 'ep'])
             steps.append({'op': op, 'sel': pipe.gen_selector(rng, w['n_models']), 'additional': rng.random() < 0.4,
-                          'channel': sc['channel'] if rng.random() < 0.8 else 'path'})
+                          'channel': sc['channel'] if rng.random() < 0.8 else 'path',
+                          # options of extract_parameters: a sub-set / re-ordering of the columns, no header line, a file suffix
+                          'ep_cols': rng.choice([None, None, 'subset', 'reversed']), 'ep_header': rng.random() < 0.75,
+                          'ep_suffix': rng.choice([None, None, '.par'])})
     if rng.random() < 0.3:
         from ..author import prelude_spec
         sc['prelude'] = {'world': prelude_spec(w, rng), 'seed': rng.randrange(1 << 30)}
@@ -166,8 +169,17 @@ def _execute(sc, sim, out):
             elif st['op'] == 'wpr':
                 r = pipe.call(write_parameter_ranges, arg, od + '/wpr.txt', select_format=sel, additional=addd)
             elif st['op'] == 'ep':
-                r = pipe.call(extract_parameters, arg, od + '/ep_', select_format=sel)
+                allcols = ['MODEL_NAME'] + list(W.par_names)
+                if st.get('ep_cols') == 'subset':
+                    pcols = [allcols[k] for k in range(len(allcols)) if (k + i) % 2 == 0] or allcols[:1]
+                elif st.get('ep_cols') == 'reversed':
+                    pcols = allcols[::-1]
+                else:
+                    pcols = None
+                r = pipe.call(extract_parameters, arg, od + '/ep_', select_format=sel, parameters='all' if pcols is None else pcols,
+                              header=bool(st.get('ep_header', True)), output_suffix=st.get('ep_suffix'))
                 cols = list(W.par_names)
+                st = dict(st, _ep_expect=(pcols or allcols))
             else:
                 saved = matplotlib.figure.Figure.savefig
                 matplotlib.figure.Figure.savefig = lambda self, *a, **kw: None
@@ -206,7 +218,7 @@ def _execute(sc, sim, out):
         if out.violations:
             break
         try:
-            msg = _check_text(st['op'], od, RR, WW, cols, lookup, out)
+            msg = _check_text(st['op'], od, RR, WW, cols, lookup, out, st)
         except Exception as e:   # unparsable output
             msg = 'output cannot be parsed (%s: %s)' % (type(e).__name__, e)
         if msg:
@@ -222,7 +234,8 @@ def _execute(sc, sim, out):
     out.trace = trace
 
 
-def _check_text(op, od, R, want, cols, lookup, out):
+def _check_text(op, od, R, want, cols, lookup, out, st=None):
+    st = st or {}
     if op in ('pp1', 'pp2'):
         return None
     if op == 'wp':
@@ -289,12 +302,21 @@ def _check_text(op, od, R, want, cols, lookup, out):
         return None
     if op == 'ep':
         for r, k in zip(R, want):
-            E = env.real_open(od + '/ep_' + r['name']).read().splitlines()
+            E = env.real_open(od + '/ep_' + r['name'] + (st.get('ep_suffix') or '')).read().splitlines()
             out.compared('ep-source')
-            if len(E) != k + 1:
-                return 'file of %s has %d rows, expected %d' % (r['name'], len(E) - 1, k)
-            hdr = E[0].split()
-            pcols = hdr[3:]
+            expect_cols = list(st.get('_ep_expect') or (['MODEL_NAME'] + list(cols)))
+            if st.get('ep_header', True):
+                if len(E) != k + 1:
+                    return 'file of %s has %d rows, expected %d' % (r['name'], len(E) - 1, k)
+                hdr = E[0].split()
+                pcols = hdr[3:]
+                if pcols != expect_cols:
+                    return 'header lists columns %s, requested %s' % (pcols, expect_cols)
+            else:
+                if len(E) != k:
+                    return 'file of %s (no header) has %d rows, expected %d' % (r['name'], len(E), k)
+                E = [''] + E
+                pcols = expect_cols
             for i in range(k):
                 t = E[1 + i].split()
                 nm = r['names'][i]
@@ -307,8 +329,6 @@ def _check_text(op, od, R, want, cols, lookup, out):
                             return 'row %d of %s lists model %s, ranking says %s' % (i + 1, r['name'], t[3 + ci], nm)
                     elif not _close(float(t[3 + ci]), lookup(c, nm)):
                         return 'row %d of %s (model %s): %s shows %s, parameter file has %r' % (i + 1, r['name'], nm, c, t[3 + ci], lookup(c, nm))
-                if sorted(c for c in pcols if c != 'MODEL_NAME') != sorted(cols):
-                    return 'columns %s, expected %s' % (pcols, cols)
         return None
 
 
